@@ -96,7 +96,7 @@ impl Scenario for IoFault {
     }
     fn total(&self, tier: Tier) -> u64 {
         match tier {
-            Tier::Quick => 1_200,
+            Tier::Quick => 3_000,
             Tier::Thorough => 60_000,
         }
     }
@@ -116,7 +116,7 @@ impl Scenario for IoFault {
         let max_content = *rs.pick(&[16u64, 300, 4096, 40_000]);
         let (kind, src) = match kind {
             0 => {
-                if rs.chance(1, 3) {
+                if rs.chance(1, 2) {
                     let mut s = gen_source(&mut r);
                     if let Source::Built(l) = &mut s {
                         l.trailing = 0;
@@ -159,7 +159,7 @@ impl Scenario for IoFault {
         };
         let all = [Decision::Fail(EK::Other), Decision::Sticky(EK::StorageFull), Decision::Eintr, Decision::ZeroWrite, Decision::EofEarly, Decision::Fail(EK::UnexpectedEof)];
         let mut faults: Vec<Decision> = vec![Decision::Fail(EK::Other)];
-        let extra = if tier == Tier::Thorough { 3 } else { 1 };
+        let extra = if tier == Tier::Thorough { 3 } else { 2 };
         for _ in 0..extra {
             let d = rs.pickc(&all);
             if !faults.contains(&d) {
